@@ -380,7 +380,7 @@ fn lattice(r: &Runner) {
                 let (std_on, dis, dis_ct, tf) = combos[i];
                 let name = format!("std={} disable_simd={} disable_simd_compiletime={} target-feature={}", std_on, dis, dis_ct, if tf.is_empty() { "none" } else { tf });
                 let mut c = Command::new("cargo");
-                c.current_dir("/repo")
+                c.current_dir(crate::repo_dir())
                     .args(["check", "--offline", "--target-dir"])
                     .arg(format!("{}/lattice/{}", c13_dir(), i))
                     .env("RUSTFLAGS", if tf.is_empty() { "--cap-lints warn".to_string() } else { format!("-C target-feature={} --cap-lints warn", tf) })
